@@ -213,9 +213,16 @@ class Body:
 
 
 class Facts:
-    def __init__(self, path):
+    def __init__(self, path, normalise=True):
         with open(path) as f:
-            j = json.load(f)
+            text = f.read()
+        self.aliases = []
+        if normalise:
+            import baseline
+            cfg = re.search(r'"config":\s*"([\w]+)"', text[-400:] + text[:400])
+            j, self.aliases = baseline.normalise_text(text, cfg.group(1) if cfg else '?')
+        else:
+            j = json.loads(text)
         self.j = j
         self.crate = j['crate']
         self.bodies = {}
